@@ -95,6 +95,7 @@ func RunPipe(sc PipeScenario) (fs []Finding, trace string) {
 		}
 	}()
 	w := NewWorld(sc.Cfg)
+	w.SeqGuard = true
 	defer w.Release()
 	m := refmodel.New(uint32(time.Now().Unix()))
 	s := w.Connect(sc.Port)
@@ -158,6 +159,9 @@ func RunPipe(sc PipeScenario) (fs []Finding, trace string) {
 	}
 	if s.Panics != nil {
 		add("panic-escaped", fmt.Sprint(s.Panics), wire.Op{Kind: "pipeline"}, "-", "-")
+	}
+	if t := w.LockTrouble(); t != "" {
+		add("key-lock-never-granted", t, wire.Op{Kind: "pipeline"}, "-", "-")
 	}
 	hung, spun, bad, residue := w.Diag()
 	if hung || spun || bad || residue != 0 {
